@@ -57,7 +57,11 @@ def run(tier, seed, replay=None):
         start = None
         if rng.random() < 0.2: start = torchtt.randn(N, [1] + [rng.randint(1, 3)] * (d - 1) + [1], dtype=torch.float64)
         sd = rng.randrange(1 << 30); torch.manual_seed(sd)
-        desc = {"routine": "dmrg_cross", "N": N, "target": kind, "eps": eps, "torch_seed": sd, "start": start is not None, "scale": scale}
+        nform = ["list", "list", "tuple", "torch.Size"][i % 4]        # the shape as a list, a tuple or the .shape of a reference array (with and without a start tensor)
+        Narg = {"list": N, "tuple": tuple(N), "torch.Size": torch.Size(N)}[nform]
+        if i % 8 in (2, 3): start = torchtt.randn(N, [1] + [rng.randint(1, 3)] * (d - 1) + [1], dtype=torch.float64)
+        desc = {"routine": "dmrg_cross", "N": N, "target": kind, "eps": eps, "torch_seed": sd, "start": start is not None, "scale": scale, "N_given_as": nform}
+        dist["N given as " + nform + (" + x_start" if start is not None else "")] = dist.get("N given as " + nform + (" + x_start" if start is not None else ""), 0) + 1
         dist["dmrg_cross:" + kind] = dist.get("dmrg_cross:" + kind, 0) + 1
         dist["scale:%g" % scale] = dist.get("scale:%g" % scale, 0) + 1
         if i % 15 == 0 and len(samples) < 5: samples.append(desc)
@@ -69,7 +73,7 @@ def run(tier, seed, replay=None):
             r = orig_maxvol(M); events.append(("maxvol", np.array(r).copy(), tuple(M.shape))); return r
         ip._maxvol = spy_maxvol
         try:
-            x = ip.dmrg_cross(spy_f, N, eps=eps, x_start=start, nswp=12)
+            x = ip.dmrg_cross(spy_f, Narg, eps=eps, x_start=start, nswp=12)
         except Exception as ex:
             V.fail("dmrg_cross raises %s" % type(ex).__name__, dict(desc, exc=str(ex)[:200])); continue
         finally:
